@@ -58,3 +58,10 @@ add('C19', 'Hypothesis generated reaction sets / grids / state chains + recomput
     'from the harness\'s own list of state Gibbs energies for Reactions.get_E_span and Network.get_E_span. Exploration only.',
     'Trusted: Reaction.get_delta_GoRT and species get_G (C08/C01); states with nearly equal G (order ambiguous) are not generated.',
     'DESIGN.md 3/C19')
+add('C13', 'Hypothesis generated species x phase x attached-model lists x construction/reload histories + additive reference (bare polynomial + sum of each model\'s own value)',
+    'Nasa, Nasa9 and Shomate species with 0-4 attached correction models in any order, every phase spelling, add_gas_P_adj default/True/False, scalar and array temperatures, '
+    'coverages through per-species blocks, constructed directly, by from_data, deepcopy, JSON or 1-3 to_dict/from_dict cycles: reported Cp, H, S, G must equal the bare polynomial plus '
+    'the sum of every attached model\'s own contribution at each temperature; exactly one pressure adjustment for gases unless disabled, none added otherwise; S(P)-S(1 bar) = -ln P. '
+    'Exploration only.',
+    'Trusted: PiecewiseCovEffect values (C17) and -ln P from fresh model instances; at most one user-supplied GasPressureAdj, only on gas species.',
+    'DESIGN.md 3/C13')
